@@ -26,6 +26,8 @@ def expected_for_handler(beh):
     """(status, body) a handler behaviour yields when interpreted like an
     endpoint result; status 500 for failures"""
     if beh[0] == "ret":
+        if beh[1] not in SHAPES:
+            return None, None
         i = SHAPES.index(beh[1])
         if SHAPE_STATUS[i] is None:
             return 500, None
@@ -58,8 +60,8 @@ def oracle(ctx, sc, ans, trace):
                 ctx.violation("status-handler-not-run", detail)
             if h[0] == "ret":
                 want, body = expected_for_handler(h)
-                if ans.code != want or (body is not None
-                                        and ans.body != body):
+                if want is not None and (ans.code != want or (
+                        body is not None and ans.body != body)):
                     ctx.violation("status-handler-result-not-like-endpoint",
                                   dict(detail, want=want))
             elif h[0] in ("throw", "conn", "exit") and ans.code != 500:
@@ -97,8 +99,8 @@ def oracle(ctx, sc, ans, trace):
                               dict(detail, want=first[0]))
             if first[1][0] == "ret":
                 want, body = expected_for_handler(first[1])
-                if ans.code != want or (body is not None
-                                        and ans.body != body):
+                if want is not None and (ans.code != want or (
+                        body is not None and ans.body != body)):
                     ctx.violation(
                         "exception-handler-result-not-like-endpoint",
                         dict(detail, want=want))
@@ -186,7 +188,8 @@ def run(ctx):
         oracle(ctx, sc, ans, trace)
     # independence of after hooks (metamorphic, on the implementation)
     for sc, ans, trace in results[:400 if ctx.quick else 4000]:
-        if sc.after and all(b == ("pass",) for b in sc.after):
+        if sc.after and all(b == ("pass",) for b in sc.after) and \
+                sc.leaf[0] not in ("debug", "debugroot"):   # page lists hooks
             bare = dc.Scenario(before=sc.before, after=[],
                                shandlers=sc.shandlers,
                                ehandlers=sc.ehandlers, digest=sc.digest,
